@@ -69,14 +69,16 @@ def plan_for(v, tag):
 
 
 class TagWorker(Worker):
-    def __init__(self, *, tag='A', log_dir=None, fail_init_index=None, nstream=0, cleanup_logs=0, fuzz=None,
+    def __init__(self, *, tag='A', log_dir=None, fail_init_index=None, fail_init_flag=None, nstream=0, cleanup_logs=0, fuzz=None,
                  base_sleep=0.0, **kwargs):
         super().__init__(**kwargs)
         self.tag = tag
         self.log_dir = log_dir
         self._logf = None
         if fail_init_index is not None and self.worker_index == fail_init_index:
-            raise InitBoom(tag, self.worker_index)  # SITE-MARK-7f3a init
+            # a transient failure when a flag file is named: it fails only while that file exists
+            if fail_init_flag is None or os.path.exists(fail_init_flag):
+                raise InitBoom(tag, self.worker_index)  # SITE-MARK-7f3a init
         if nstream:
             self.num_stream_threads = nstream
         self.preprocess = self._preprocess
